@@ -47,8 +47,10 @@ func C08(c *core.Ctx) {
 	runHostile(c, func(name string) bool {
 		return strings.HasPrefix(name, "empty-enum ") || strings.HasPrefix(name, "nonprimitive-enum ")
 	})
-	// which declaration a same-named schema is bound to decides which constraints validate it (A-DEDUP)
+	// which declaration a same-named schema is bound to decides which constraints validate it (A-DEDUP, and end to end: three files
+	// with a same-named definition each)
 	ruleDedup(c)
+	ruleMultiSel(c, ruleSet("A-REJ", "A-NOEXTRA"), 1, "three files with their own minLength")
 	// the list the generator sees is the list the document states: no value dropped, merged or re-typed by the decoder
 	ruleFidelity(c, "enum")
 	c.Floor("families", c.Counts["members"], 70, "family members")
